@@ -1,6 +1,17 @@
 #pragma once
 #include "tbbstub.h"
 namespace tbb {
+// a task created by task_group::defer(): belongs to its group (wait() waits for it) but is not scheduled yet
+class task_handle
+{
+ public:
+  task_handle() : g(nullptr) {}
+  task_handle(tbbstub::Group *g_, std::function<void()> f_) : g(g_), f(std::move(f_)) {}
+  task_handle(task_handle &&o) : g(o.g), f(std::move(o.f)) { o.g = nullptr; }
+  task_handle(const task_handle &) = delete;
+  tbbstub::Group *g;
+  std::function<void()> f;
+};
 class task_group
 {
  public:
@@ -13,6 +24,12 @@ class task_group
   {
     tbbstub::group_run(g, std::function<void()>(std::forward<F>(f)));
   }
+  template <typename F>
+  task_handle defer(F &&f)
+  {
+    return task_handle(g, std::function<void()>(std::forward<F>(f)));
+  }
+  void run(task_handle &&h) { tbbstub::group_run(h.g, std::move(h.f)); }
   void wait() { tbbstub::group_wait(g); }
 
  private:
